@@ -20,6 +20,55 @@ CHECKS = {
              "(checked textually in new_hash_partitioner). Outside: create_hashes (C12), partition_iter's use of the indices (C10).",
         design="5/C11",
     ),
+    "C42": dict(
+        engine="K (Kani / CBMC)",
+        category="model_checking",
+        technique="bounded model checking of the real Rust code with Kani 0.68 / CBMC 6.11 (SAT), symbolic closure decisions, per-shape reference walk as oracle; failing harnesses replayed natively",
+        text="Each harness compiles the real datafusion_common::tree_node code and lets CBMC decide, for ALL per-node closure decisions (Continue/Jump/Stop x transformed-or-not, f_down and f_up), "
+             "that visit order, skip/stop handling, rewritten tree and changed-flag equal the documented contract. Bounded: small tree shapes, three node representations, all seven traversal methods, "
+             "plus unit harnesses for every sibling-container implementation and the TreeNodeRecursion / Transformed decision tables.",
+        note="Oracle = reference walk emitted per shape by k/c42.py. Bounds: shapes whose harness finishes under the tier cap (k/c42_calibration.json), unwinding assertions on. Assumes closures never return Err. "
+             "Outside: Expr/LogicalPlan/PhysicalExpr per-variant child enumeration, larger trees.",
+        design="5/C42",
+    ),
+    "C04": dict(
+        engine="T (translation validation, SMT)",
+        category="translation_validation",
+        technique="translation validation: real ExprSimplifier / PhysicalExprSimplifier run on each program; before/after encoded to QF_BV SMT over a symbolic row; z3 5.1 + z3 4.8 decide; models replayed in the real evaluator",
+        text="For every program of a bounded expression grammar the REAL simplifier output is proved equivalent to its input for ALL rows (every column value of the full bit width is a solver variable, NULLs included), "
+             "under the property's precondition (original evaluates without error). A sat model is replayed through create_physical_expr(..).evaluate before it is reported; the SMT semantics is cross-validated "
+             "against the real evaluator on a 24k-point boundary grid on every run.",
+        note="Trusted: SMT operator semantics beyond the validated grid points, z3. Bounds: grammar depth <= 4, integer/boolean/decimal/temporal types, boundary literals. Outside: floats, strings, regex/LIKE, date functions. "
+             "Recorded defects of the pinned tree are listed in known_findings.json (8 signatures), three further ones were repaired (fix: commits).",
+        design="5/C04",
+    ),
+    "C47": dict(
+        engine="T (translation validation, SMT)",
+        category="translation_validation",
+        technique="translation validation of the TypeCoercion rewrite: coerced comparison vs mirrored comparison vs exact mathematical comparison, QF_BV SMT over symbolic operands, replay in the real evaluator / i128 arithmetic",
+        text="For every ordered pair of comparable types the REAL coercion rewrite of x <op> y is proved (a) equal to the mirrored y <op'> x, (b) equal to the comparison of the mathematical values for integers and decimals "
+             "whenever it evaluates without error, (c) IN lists equal the OR of equalities - for ALL operand values.",
+        note="Bounds: 13 (quick) / 19 (thorough) types x 8 operators, literal operands from type boundaries. Outside: floats, strings, dictionaries, equi-joins, Date64<->Timestamp casts (unsupported by the encoder, counted).",
+        design="5/C47",
+    ),
+    "C22": dict(
+        engine="T (translation validation, SMT)",
+        category="translation_validation",
+        technique="translation validation of the pruning rewrite: predicate on a symbolic witness row vs statistics predicate on symbolic (possibly unknown) min/max/null_count/row_count, QF_BV SMT; models replayed through the real PruningPredicate::prune",
+        text="For every predicate of the grammar the REAL PruningPredicateBuilder output P' and the REAL LiteralGuarantee::analyze output are proved sound for ALL containers: no valid statistics + witness row with P(row) TRUE and P'(stats) FALSE; "
+             "no row with P(row) TRUE that violates a derived guarantee.",
+        note="Container = statistics + one witness row (sufficient for soundness: a skipped container with a matching row is a witness). Outside: LIKE/strings, bloom-filter `contained`, file_pruner plumbing. One corner finding recorded.",
+        design="5/C22",
+    ),
+    "C23": dict(
+        engine="T (translation validation, SMT)",
+        category="translation_validation",
+        technique="real Interval / cp_solver code run on enumerated endpoint pairs; soundness over ALL values inside the intervals decided by z3 over mathematical integers (exact arithmetic); models re-checked with i128 arithmetic",
+        text="For each pair of intervals (endpoints from the type boundaries, incl. unbounded) the interval the REAL code returns is proved to contain the exact result for ALL value pairs whose result is representable; "
+             "comparisons contain the truth value; satisfy_greater / propagate_arithmetic / propagate_comparison / ExprIntervalGraph::update_ranges never remove a satisfying assignment.",
+        note="Endpoints enumerated (boundary set), values symbolic. Integers only; floats/directed rounding and distributions are outside. Three division-related defects recorded, two defects repaired (fix: commits).",
+        design="5/C23",
+    ),
 }
 
 NOT_APPLICABLE = {
@@ -64,20 +113,15 @@ NOT_APPLICABLE = {
 # planned in DESIGN.md but the check is not built (yet): listed as not applicable until it exists and passes
 PENDING = {
     "C03": "planned (DESIGN 5/C03, engine T plan level): check not built yet",
-    "C04": "planned (DESIGN 5/C04, engine T): check not built yet",
     "C14": "planned (DESIGN 5/C14, engine K one-step harness): check not built yet",
     "C17": "planned (DESIGN 5/C17, engine K one-step harness): check not built yet",
     "C21": "planned (DESIGN 5/C21, engine K item extraction): check not built yet",
-    "C22": "planned (DESIGN 5/C22, engine T): check not built yet",
-    "C23": "planned (DESIGN 5/C23, engine T/K): check not built yet",
     "C28": "planned (DESIGN 5/C28, engine T): check not built yet",
     "C37": "planned (DESIGN 5/C37, engine T plan level): check not built yet",
     "C38": "planned (DESIGN 5/C38, engine T plan level): check not built yet",
     "C40": "planned (DESIGN 5/C40, engine K file mount): check not built yet",
     "C41": "planned (DESIGN 5/C41, engine T plan level): check not built yet",
-    "C42": "planned (DESIGN 5/C42, engine K): check not built yet",
     "C44": "planned (DESIGN 5/C44, engine T): check not built yet",
-    "C47": "planned (DESIGN 5/C47, engine T): check not built yet",
     "C48": "planned (DESIGN 5/C48, engine T plan level): check not built yet",
 }
 
